@@ -52,7 +52,8 @@ def cases(draw, tier="quick"):
             "lines": [[{k: [v.numerator, v.denominator] for k, v in a.items()},
                        {k: [v.numerator, v.denominator] for k, v in b.items()}] for a, b in lines],
             "config": draw(st.sampled_from(["default", "default", "lowthr"])),
-            "prequery": draw(st.booleans())}
+            "prequery": draw(st.booleans()),
+            "newp": {p["name"]: draw(st.sampled_from([0.5, 2.0, 3.0, -1.0])) for p in env["params"]}}
 
 
 def strategy(tier):
@@ -94,6 +95,16 @@ def _fd_float(env, recipe, pv, line, d):
 
 
 def check(case):
+    res = _check(case, None)
+    if res.kind == "ok" and case["env"]["params"] and case.get("newp"):
+        # the classification must also be right for parameter values set AFTER it was first computed
+        res2 = _check(case, case["newp"])
+        if res2.kind == "violation":
+            return Result.violation("stale-after-parameter-update:" + res2.label, res2.detail, res2.classes)
+    return res
+
+
+def _check(case, newp):
     from optyx import analysis
 
     env, recipe = case["env"], case["expr"]
@@ -107,6 +118,12 @@ def check(case):
             return Result.discard("build-raises:" + exc_label(ex), classes)
         if not is_expr(e):
             return Result.discard("not-an-expression", classes)
+        if newp:
+            e.degree  # classify with the original values first ...
+            for p_ in env["params"]:
+                b.params[p_["name"]].set(newp[p_["name"]])  # ... then update
+            pv = dict(newp)
+            classes.append("params-updated-after-classification")
         try:
             if case.get("prequery"):
                 # cache state: every sub-expression was classified on its own before the whole
